@@ -7,7 +7,7 @@ mkdir -p .build
 (cd tools/vxextract && CARGO_TARGET_DIR=../../.build/vxextract cargo build --release --offline)
 
 # warm the native replay crates (dependencies only change with /repo's Cargo.lock); failures here are not fatal
-for c in replay replay_net replay_tsig; do
-  (cd $c && cp /repo/Cargo.lock . 2>/dev/null; CARGO_TARGET_DIR=../.build/$c cargo build --offline -q --bins >/dev/null 2>&1 || true)
+for c in replay replay_net replay_tsig replay_sign; do
+  (cd $c && cp /repo/Cargo.lock . 2>/dev/null; CARGO_TARGET_DIR=../.build/$c cargo build --offline -q --bins >/dev/null 2>&1 || true; CARGO_TARGET_DIR=../.build/$c cargo build --offline -q --release --bins >/dev/null 2>&1 || true)
 done
 echo "setup done"
